@@ -204,14 +204,14 @@ def _mutate(ch, draws, which) -> bool:
 
 def _mutate_one(t, draws, which) -> bool:
     m = Mutator(G)
-    fn = {0: m.replace_subtree_randomly, 1: m.generalize_subtree}[which]
+    fn = {0: m.replace_subtree_randomly, 1: m.generalize_subtree, 2: m.swap_subtrees, 3: m.mutate}[which]
     try:
         res = with_stream(draws, lambda: fn(t))
     except vlib.IgnoreAttempt:
         raise
     except Exception as e:
         raise AssertionError("%s(%r) raised %s: %s" % (fn.__name__, str(t), type(e).__name__, str(e)[:100]))
-    r = res.value_or(None)
+    r = res if which == 3 else res.value_or(None)      # mutate returns the tree itself
     if r is None:
         return True
     what = "%s(%r)" % (fn.__name__, str(t))
@@ -238,3 +238,19 @@ def h_generalize_subtree(ch: List[int]) -> bool:
     post: _
     """
     return vlib.untraced(_all_streams, _mutate, [int(c) for c in vlib.realize(ch)], 1)
+
+
+def h_swap_subtrees(ch: List[int]) -> bool:
+    """
+    pre: _ok(ch, L, MAXC - 1)
+    post: _
+    """
+    return vlib.untraced(_all_streams, _mutate, [int(c) for c in vlib.realize(ch)], 2)
+
+
+def h_mutate(ch: List[int]) -> bool:
+    """
+    pre: _ok(ch, L, MAXC - 1)
+    post: _
+    """
+    return vlib.untraced(_all_streams, _mutate, [int(c) for c in vlib.realize(ch)], 3)
